@@ -30,8 +30,44 @@ theorem timespec_exact (w n : Int) :
   rw [Int.tdiv_eq_ediv_of_nonneg h0, Int.tmod_eq_emod_of_nonneg h0]
   omega
 
+/-- `addTime` of the unchanged code: `seconds` stands for `us / 10^6` (exact rational), the product with
+`kMicroSecondsPerSecond` is truncated to an `int64_t` and added in 64 bits: the result is `timestamp + us`, no 32-bit
+intermediate value anywhere -/
+theorem addTime_eq (t us : Int) : addTime t us = t + us := by
+  unfold addTime kMicroSecondsPerSecond
+  simp only [Int.mul_tdiv_cancel us (by decide : (1000000 : Int) ≠ 0)]
+
+theorem wrapI64_of_range {x : Int} (h1 : -9223372036854775808 ≤ x) (h2 : x < 9223372036854775808) : wrapI64 x = x := by
+  unfold wrapI64
+  exact Int.bmod_eq_of_le_mul_two (by omega) (by omega)
+
+/-- the machine's arithmetic (every 64-bit operation and the double → int64_t conversion wrapped) gives the same
+result whenever the delay and the sum are representable in an `int64_t` -/
+theorem addTimeW_eq (t us : Int) (hd1 : -9223372036854775808 ≤ us) (hd2 : us < 9223372036854775808)
+    (h1 : -9223372036854775808 ≤ t + us) (h2 : t + us < 9223372036854775808) : addTimeW t us = t + us := by
+  unfold addTimeW kMicroSecondsPerSecond
+  simp only [Int.mul_tdiv_cancel us (by decide : (1000000 : Int) ≠ 0)]
+  rw [wrapI64_of_range hd1 hd2, wrapI64_of_range h1 h2]
+
+/-- `howMuchTimeFromNow` in the machine's arithmetic: no wrap when the difference of the two readings is representable -/
+theorem howMuchW_eq (w n : Int) (h1 : -9223372036854775808 ≤ w - n) (h2 : w - n < 9223372036854775808) :
+    howMuchUsW w n = howMuchUs w n ∧ howMuchTimeFromNowW w n = howMuchTimeFromNow w n := by
+  have hu : howMuchUsW w n = howMuchUs w n := by
+    unfold howMuchUsW howMuchUs
+    rw [wrapI64_of_range h1 h2]
+  refine ⟨hu, ?_⟩
+  have hf := howMuchUs_floor w n
+  have hlt : howMuchUs w n < 9223372036854775808 := by rw [howMuchUs_eq]; omega
+  unfold howMuchTimeFromNowW howMuchTimeFromNow kMicroSecondsPerSecond
+  simp only [hu]
+  generalize howMuchUs w n = u at *
+  have h0 : (0 : Int) ≤ u := by omega
+  rw [Int.tdiv_eq_ediv_of_nonneg h0, Int.tmod_eq_emod_of_nonneg h0]
+  rw [wrapI64_of_range (x := u / 1000000) (by omega) (by omega), wrapI64_of_range (x := u % 1000000) (by omega) (by omega),
+    wrapI64_of_range (x := u % 1000000 * 1000) (by omega) (by omega)]
+
 theorem restart_repeating (now d : Int) : restart true now d = now + d := by
-  simp [restart, addTime]
+  simp [restart, addTime_eq]
 
 theorem entryExpired_le {e : Time × Addr} {now : Time} (h : entryExpired e.1 e.2 now) : e.1 ≤ now := by
   unfold entryExpired at h
